@@ -9,6 +9,7 @@ CONSTANTS
   IllegalM = {42}
   ReservedM <- ReservedNone
   EmitGen = TRUE
+  Heads <- NoHeads
   SampleMod = 2
 INIT Init
 NEXT Next
